@@ -76,7 +76,8 @@ def gen_mod(r):
         ins += b"\0" * 22 + struct.pack(">HBBHH", 0, 0, 0, 0, 0)
     extra = b"\0\x40\0\0" if magic[:2] == b"FA" else b""
     data = name + ins + bytes([length, restart]) + bytes(orders) + magic + extra + b"\0" * npat_bytes + b"\0" * 6
-    line = "mod %d %d %d %d 0 %d %d %d %s" % (magic[0], magic[1], magic[2], magic[3], length, restart, 128,
+    # "1": no sample above 64k words, no FLEX trailer, not the Protracker song size: get_tracker_id may run
+    line = "mod %d %d %d %d 0 1 %d %d %d %s" % (magic[0], magic[1], magic[2], magic[3], length, restart, 128,
                                               " ".join(str(x) for x in orders))
     return data, line
 
@@ -99,7 +100,7 @@ def gen_s3m(r):
     orders = []
     for _ in range(ordnum):
         k = r.random()
-        orders.append(0xff if k < 0.1 else 0xfe if k < 0.2 else r.randint(0, top + 2) if k < 0.3 else r.randint(0, top - 1))
+        orders.append(0xff if k < 0.1 else 0xfe if k < 0.2 else min(255, r.randint(0, top + 2)) if k < 0.3 else r.randint(0, top - 1))
     if r.random() < 0.08:
         orders = [r.choice([0xfe, 0xff]) for _ in range(ordnum)]      # no pattern at all
     hdr = bytearray(96)
